@@ -18,14 +18,17 @@
 
   PARTIAL BY NATURE / ASSUMPTIONS: see the header of Model/Input.lean (GIL atomicity of list operations, signal
   timing, select fairness/order; preemption only inside select).
-  KNOWN FINDINGS D15 and D12: when `find_key` raises (D15: the available bytes end inside a multi-byte keypress ->
-  ValueError; D12: `get_key` itself raises UnicodeDecodeError on ESC-prefix + byte >= 0x80) the bytes popped so far -
-  in the paste branch the whole paste - are lost.  `C08_full_statement` (nothing is ever lost) is therefore false:
-  `C08_D15_witness`, `C08_D12_witness`.  `C08_exactly_once_partial` carries the complementary hypothesis: the request
+  KNOWN FINDINGS D15, D12, D35: when `find_key` raises (D15: the available bytes end inside a multi-byte keypress ->
+  ValueError; D12: `get_key` itself raises UnicodeDecodeError on ESC-prefix + byte >= 0x80; D35: ... on ill-formed
+  UTF-8 in mid-stream, e.g. c3 41) the bytes popped so far - in the paste branch the whole paste - are lost, valid
+  ones included.  `C08_full_statement` (nothing is ever lost) is therefore false: `C08_D15_witness`,
+  `C08_D12_witness`, `C08_D35_witness`.  `C08_exactly_once_partial` carries the complementary hypothesis: the request
   does not raise (every `find_key` of the request ends on a keypress boundary and `get_key` does not raise).
   `C08_no_early` (never before its time; time order; ties in trigger order - via sortedness and stability of the
-  model's sort), `C08_timeout`, `C08_prompt` (all six kinds of "deliverable") and the multi-request corollary
-  `C08_exactly_once_history` are proved at the end of the file.
+  model's sort), `C08_timeout`, `C08_prompt` (all six kinds of "deliverable"), the multi-request corollary
+  `C08_exactly_once_history`, the paste clauses (`C08_paste_iff`, `C08_paste_fuel`), "None only when nothing is
+  readable" (`C08_none_nothing_readable`) and the unreachability of `Fail.outOfFuel` (`C08_wait_fuel`,
+  `C08_no_out_of_fuel`) are proved further down.
 -/
 import Curtsies.Model.Input
 namespace Curtsies
@@ -538,8 +541,10 @@ def C08_full_statement : Prop :=
     ∃ fired, ag = fired ++ (send P gk val wf st ag timeout).2.2 ∧
       Took P st fired (resOut (send P gk val wf st ag timeout).1) [] (send P gk val wf st ag timeout).2.1
 
-/-- Exactly once, in order, never dropped - for every request that does not raise (complement of the D15/D12
-    footprints: `find_key` raises only when the buffered bytes end inside a keypress or `get_key` raises). -/
+/-- Exactly once, in order, never dropped - for every request that does not raise.  "Does not raise" is the
+    complement of the union of three open findings, the only ways `find_key` raises: D15 (the available bytes end
+    inside a multi-byte keypress -> ValueError), D12 (`get_key` raises UnicodeDecodeError on an escape-sequence prefix
+    followed by a byte >= 0x80) and D35 (`get_key` raises UnicodeDecodeError on ill-formed UTF-8 in mid-stream). -/
 theorem C08_exactly_once_partial (P : Params) (gk : List Nat → Bool → Except PyErr (Option κ)) (val : β → Nat)
     (wf : Nat) (st : InSt β) (ag : Agenda β) (timeout : Option Time) (o : Option (Out κ β))
     (h : (send P gk val wf st ag timeout).1 = .ok o) :
@@ -614,13 +619,15 @@ theorem C08_prompt_buffered (P : Params) (gk : List Nat → Bool → Except PyEr
 
 /-! ### known findings: witnesses on the model -/
 
-/-- a miniature `get_key` for utf-8: ASCII bytes are keys; e2 starts a 3-byte character; a lone byte >= 0x80 is a Meta
+/-- a miniature `get_key` for utf-8: ASCII bytes are keys; e2 starts a 3-byte character, c3 a 2-byte character whose
+    second byte must be a continuation byte (else UnicodeDecodeError: D35); a lone byte >= 0x80 is a Meta
     key when nothing follows (`full`); ESC followed by a byte >= 0x80 raises UnicodeDecodeError (D12) -/
 def toyKey (seq : List Nat) (full : Bool) : Except PyErr (Option (List Nat)) :=
   match seq with
   | [b] => if b == 0x1b then (if full then .ok (some [b]) else .ok none)
-           else if b == 0xe2 then (if full then .ok (some [b]) else .ok none) else .ok (some [b])
+           else if b == 0xe2 || b == 0xc3 then (if full then .ok (some [b]) else .ok none) else .ok (some [b])
   | [0x1b, b] => if b ≥ 0x80 then .error .unicodeDecodeError else .ok (some [0x1b, b])
+  | [0xc3, b] => if 0x80 ≤ b && b ≤ 0xbf then .ok (some [0xc3, b]) else .error .unicodeDecodeError
   | [0xe2, _] => .ok none
   | [0xe2, b, c] => .ok (some [0xe2, b, c])
   | _ => .error .valueError
@@ -642,6 +649,14 @@ theorem C08_D12_witness :
     let r := send toyParams toyKey id 10 ({} : InSt Nat) [(0, .arrive [0x1b, 0xc3, 0xa9])] (some 0)
     (match r.1 with | .error (.py .unicodeDecodeError) => true | _ => false) = true ∧
       r.2.1.unprocessed = [0xa9] ∧ r.2.1.osbuf = [] := by
+  decide
+
+/-- D35 on the model: the ill-formed sequence `c3 41` ('A' after a 2-byte lead byte): UnicodeDecodeError, and the valid
+    'A' is gone with the lead byte - neither the Input nor the OS buffer holds anything. (script `A0:c341 | r0`) -/
+theorem C08_D35_witness :
+    let r := send toyParams toyKey id 10 ({} : InSt Nat) [(0, .arrive [0xc3, 0x41])] (some 0)
+    (match r.1 with | .error (.py .unicodeDecodeError) => true | _ => false) = true ∧
+      r.2.1.unprocessed = [] ∧ r.2.1.osbuf = [] := by
   decide
 
 /-- Non-vacuity of `C08_exactly_once_partial`: the same bytes arriving whole come back as one keypress. -/
@@ -987,6 +1002,44 @@ theorem afterWait_facts (P : Params) (gk : List Nat → Bool → Except PyErr (O
         · exact Or.inr (Or.inr (Or.inl h1))
         · exact Or.inr (Or.inr (Or.inr h1))
 
+/-! ## a request never returns `None` while a descriptor is readable -/
+theorem firstReady_congr (P : Params) (a b : InSt β) (h1 : a.osbuf = b.osbuf) (h2 : a.spurious = b.spurious)
+    (h3 : a.wake = b.wake) (h4 : a.pipes = b.pipes) : firstReady P a = firstReady P b := by
+  unfold firstReady; rw [h1, h2, h3, h4]
+
+theorem select_timeout_idle (P : Params) (dl : Option Time) (st : InSt β) (ag : Agenda β) :
+    (match (select P dl st ag).1 with | .timeout => True | _ => False) →
+      firstReady P (select P dl st ag).2.1 = none := by
+  fun_induction select P dl st ag with
+  | case1 st ag r h =>
+    intro ht
+    have := firstReady_some P st r h
+    cases r <;> simp_all
+  | case2 st h hd => intro ht; simp at ht
+  | case3 st h d hd => intro _; rw [← h]; exact firstReady_congr P _ _ rfl rfl rfl rfl
+  | case4 st h t a rest hd ih => subst hd; exact ih
+  | case5 st h t a rest d hd hle ih => subst hd; exact ih
+  | case6 st h t a rest d hd hle => intro _; rw [← h]; exact firstReady_congr P _ _ rfl rfl rfl rfl
+
+theorem waitLoop_notready_idle (P : Params) (timeout : Option Time) (t0 : Time) (f : Nat) (remaining : Option Time)
+    (st : InSt β) (ag : Agenda β) :
+    (waitLoop (κ := κ) P timeout t0 f remaining st ag).1 = .ok (false, none) →
+      firstReady P (waitLoop (κ := κ) P timeout t0 f remaining st ag).2.1 = none := by
+  fun_induction waitLoop (κ := κ) P timeout t0 f remaining st ag with
+  | case1 x st ag => intro h; simp at h
+  | case2 f remaining st ag st1 ag1 hs => intro h; simp at h
+  | case3 f remaining st ag st1 ag1 hs =>
+    intro _
+    have := select_timeout_idle P (Option.map (fun x => st.clock + x) remaining) st ag
+    rw [hs] at this
+    exact this trivial
+  | case4 f remaining st ag st1 ag1 hs => intro h; simp at h
+  | case5 f remaining st ag n rest st1 ag1 hs st2 hn hg => intro h; simp at h
+  | case6 f remaining st ag n rest st1 ag1 hs st2 hn hg ih => exact ih
+  | case7 f remaining st ag n rest st1 ag1 hs st2 hn ih => exact ih
+  | case8 f remaining st ag i st1 ag1 hs st2 e q he => intro h; simp at h
+  | case9 f remaining st ag i st1 ag1 hs st2 he ih => exact ih
+
 theorem RemInv.init (tuc : Option Time) (c : Time) : RemInv tuc c tuc c := by
   cases tuc with
   | none => rfl
@@ -1003,6 +1056,7 @@ theorem sendRest_cases (P : Params) (gk : List Nat → Bool → Except PyErr (Op
         (st.spurious = false → (∀ x ∈ ag, isSpur x.2 = false) → st1.spurious = false) ∧
         (ready = false → ∃ T, tuc = some T ∧ st.clock + T ≤ st1.clock) ∧
         (ready = true → st1.osbuf ≠ [] ∨ st1.spurious = true) ∧
+        (ready = false → firstReady P st1 = none) ∧
         sendRest P gk val wf tuc st ag = afterWait P gk val ready st1 ag1)) := by
   unfold sendRest at h ⊢
   have hn := findKey_none gk val st.unprocessed []
@@ -1028,7 +1082,8 @@ theorem sendRest_cases (P : Params) (gk : List Nat → Bool → Except PyErr (Op
       have hnone := waitLoop_none (κ := κ) P tuc st.clock wf tuc st ag (RemInv.init tuc st.clock)
       have hev := waitLoop_ev (κ := κ) P tuc st.clock wf tuc st ag
       have hq := waitLoop_quiet (κ := κ) P tuc st.clock wf tuc st ag
-      generalize waitLoop (κ := κ) P tuc st.clock wf tuc st ag = wr at hnone hev hq h ⊢
+      have hidle := waitLoop_notready_idle (κ := κ) P tuc st.clock wf tuc st ag
+      generalize waitLoop (κ := κ) P tuc st.clock wf tuc st ag = wr at hnone hev hq hidle h ⊢
       obtain ⟨wres, st1, ag1⟩ := wr
       cases wres with
       | error fl => simp at h
@@ -1041,7 +1096,8 @@ theorem sendRest_cases (P : Params) (gk : List Nat → Bool → Except PyErr (Op
         | none =>
           simp only [] at h ⊢
           obtain ⟨⟨fired, hf, hg⟩, hto, hrd⟩ := hnone ready rfl
-          exact Or.inr ⟨ready, st1, ag1, fired, hf, hg, fun h0 hqq => hq hqq h0, hto, hrd, rfl⟩
+          exact Or.inr ⟨ready, st1, ag1, fired, hf, hg, fun h0 hqq => hq hqq h0, hto, hrd,
+            fun hr0 => hidle (by rw [hr0]), rfl⟩
 
 theorem envS_nil (f : Agenda β) (h : ∀ x ∈ f, isSched x.2 = false) : envS f = [] := by
   unfold envS
@@ -1121,7 +1177,7 @@ theorem C08_no_early (P : Params) (gk : List Nat → Bool → Except PyErr (Opti
         pending.filter (fun p => p.1 == t) =
           (t, e) :: (sendRest P gk val wf tuc st0 ag).2.1.scheduled.filter (fun p => p.1 == t) := by
     intro tuc st0 hs0 hc0 hr
-    rcases sendRest_cases P gk val wf tuc st0 ag _ hr with ⟨k, bs, hk⟩ | ⟨_, ⟨ev, hev, hev2⟩ | ⟨ready, st1, ag1, fired, hf, hg, _, _, _, heq⟩⟩
+    rcases sendRest_cases P gk val wf tuc st0 ag _ hr with ⟨k, bs, hk⟩ | ⟨_, ⟨ev, hev, hev2⟩ | ⟨ready, st1, ag1, fired, hf, hg, _, _, _, _, heq⟩⟩
     · simp at hk
     · rcases hev2 with h1 | ⟨e', h1⟩ <;> subst h1 <;> simp at hev
     · rw [heq] at hr ⊢
@@ -1188,7 +1244,7 @@ theorem C08_timeout (P : Params) (gk : List Nat → Bool → Except PyErr (Optio
     have hso : sortSched st.scheduled = [] := by rw [hs]; rfl
     rw [hso] at h ⊢
     simp only [] at h ⊢
-    rcases sendRest_cases P gk val wf timeout st ag _ h with ⟨k, bs, hk⟩ | ⟨_, ⟨ev, hev, _⟩ | ⟨ready, st1, ag1, fired, hf, hg1, hsp, hto, hrd, heq⟩⟩
+    rcases sendRest_cases P gk val wf timeout st ag _ h with ⟨k, bs, hk⟩ | ⟨_, ⟨ev, hev, _⟩ | ⟨ready, st1, ag1, fired, hf, hg1, hsp, hto, hrd, _, heq⟩⟩
     · simp at hk
     · simp at hev
     · rw [heq] at h ⊢
@@ -1491,12 +1547,449 @@ theorem C08_exactly_once_history (P : Params) (gk : List Nat → Bool → Except
         obtain ⟨f2, h2, hh2⟩ := ih st1 ag1
         exact ⟨f1 ++ f2, by rw [h1, List.append_assoc, ← h2], Hist.reqThen ht hl hh2⟩
 
-/-- "The wait-loop fuel always suffices": with `waitFuelFor st ag` rounds the wait loop never answers `outOfFuel`.
-    NOT PROVED (each round consumes a wake-up byte or >= 1 pipe byte and `select` turns one agenda item into at most
-    PIPE_WRITE such bytes, so `wake + sum pipes + (PIPE_WRITE+1) * |agenda|` decreases; the measure argument is not
-    formalised).  The simulation tie would show an `F` token on the model side if it ever happened: none in any run. -/
-def C08_wait_fuel_statement : Prop :=
-  ∀ (β κ : Type) (P : Params) (timeout : Option Time) (t0 : Time) (remaining : Option Time) (st : InSt β) (ag : Agenda β),
-    (waitLoop (κ := κ) P timeout t0 (waitFuelFor st ag) remaining st ag).1 ≠ .error .outOfFuel
+/-! ## paste: fuel, completeness, and when it happens -/
+theorem findKey_some_shorter (gk : List Nat → Bool → Except PyErr (Option κ)) (val : β → Nat) (u cur : List β) (k : κ)
+    (h : (findKey gk val u cur).1 = .ok (some k)) : (findKey gk val u cur).2.2.length < u.length := by
+  induction u generalizing cur with
+  | nil => unfold findKey at h; split at h <;> simp at h
+  | cons b rest ih =>
+    unfold findKey at h ⊢
+    simp only [] at h ⊢
+    split
+    · rename_i heq; rw [heq] at h; simp at h
+    · simp
+    · rename_i heq
+      rw [heq] at h
+      have := ih _ h
+      simp only [List.length_cons]; omega
+
+/-- the paste loop never runs out of fuel when started with more fuel than there are bytes -/
+theorem pasteLoop_fuel (P : Params) (gk : List Nat → Bool → Except PyErr (Option κ)) (val : β → Nat) :
+    ∀ (f : Nat) (acc : List (κ × List β)) (st : InSt β), st.unprocessed.length + st.osbuf.length < f →
+      (pasteLoop P gk val f acc st).1 ≠ .error .outOfFuel := by
+  intro f
+  induction f with
+  | zero => intro acc st h; omega
+  | succ f ih =>
+    intro acc st h
+    unfold pasteLoop
+    simp only []
+    generalize hst1 : (if st.unprocessed.length < P.maxKey then (nonblockingRead P st).2 else st) = st1
+    have hlen : st1.unprocessed.length + st1.osbuf.length = st.unprocessed.length + st.osbuf.length := by
+      subst hst1; split
+      · simp [nonblockingRead]; omega
+      · rfl
+    have hk := findKey_some_shorter gk val st1.unprocessed []
+    generalize findKey gk val st1.unprocessed [] = r at hk
+    obtain ⟨res, used, rest⟩ := r
+    cases res with
+    | error e => simp
+    | ok o =>
+      cases o with
+      | none => simp
+      | some k =>
+        have := hk k rfl
+        simp only [] at this ⊢
+        exact ih _ _ (by simp only []; omega)
+
+theorem C08_paste_fuel (P : Params) (gk : List Nat → Bool → Except PyErr (Option κ)) (val : β → Nat) (st : InSt β) :
+    (pasteLoop P gk val (pasteFuel st) [] st).1 ≠ .error .outOfFuel :=
+  pasteLoop_fuel P gk val _ _ _ (by unfold pasteFuel; omega)
+
+/-- a paste event that comes back holds EVERYTHING: afterwards neither the Input nor the OS buffer holds a byte -/
+theorem pasteLoop_drains (P : Params) (gk : List Nat → Bool → Except PyErr (Option κ)) (val : β → Nat)
+    (hm : P.maxKey > 0) (hr : P.readSize > 0) :
+    ∀ (f : Nat) (acc : List (κ × List β)) (st : InSt β) (o : Option (Out κ β)),
+      (pasteLoop P gk val f acc st).1 = .ok o →
+      (pasteLoop P gk val f acc st).2.unprocessed = [] ∧ (pasteLoop P gk val f acc st).2.osbuf = [] := by
+  intro f
+  induction f with
+  | zero => intro acc st o h; simp [pasteLoop] at h
+  | succ f ih =>
+    intro acc st o h
+    unfold pasteLoop at h ⊢
+    simp only [] at h ⊢
+    generalize hst1 : (if st.unprocessed.length < P.maxKey then (nonblockingRead P st).2 else st) = st1 at h ⊢
+    have hn := findKey_none gk val st1.unprocessed []
+    have hs := findKey_split gk val st1.unprocessed []
+    generalize findKey gk val st1.unprocessed [] = r at hn hs h ⊢
+    obtain ⟨res, used, rest⟩ := r
+    cases res with
+    | error e => simp at h
+    | ok ko =>
+      cases ko with
+      | some k => exact ih _ _ o h
+      | none =>
+        have hu := (hn rfl).1
+        simp only [List.nil_append] at hs
+        have hrest : rest = [] := by rw [hu] at hs; exact (List.append_eq_nil_iff.mp hs).2
+        subst hrest
+        refine ⟨rfl, ?_⟩
+        subst hst1
+        by_cases hlt : st.unprocessed.length < P.maxKey
+        · simp only [hlt, if_true] at hu ⊢
+          simp only [nonblockingRead, List.append_eq_nil_iff] at hu
+          have ht : st.osbuf.take P.readSize = [] := hu.2
+          have ho : st.osbuf = [] := take_length_zero _ _ hr (by rw [ht]; rfl)
+          simp [nonblockingRead, ho]
+        · simp only [hlt, if_false] at hu
+          rw [hu] at hlt; simp at hlt; omega
+
+/-- PASTE: after a read of `n > 0` bytes, a paste event comes back exactly when `n > paste_threshold` (never for
+    threshold None); it then holds, as consecutive keypresses in order, every byte that was available, nothing is
+    left behind (`pend = []`), and the loop's fuel suffices.  Otherwise one keypress (or an exception: D15/D12/D35). -/
+theorem C08_paste_iff (P : Params) (gk : List Nat → Bool → Except PyErr (Option κ)) (val : β → Nat)
+    (st : InSt β) (ag : Agenda β) (o : Option (Out κ β)) (hm : P.maxKey > 0) (hr : P.readSize > 0)
+    (hn : (nonblockingRead P st).1 ≠ 0) (h : (sendRead P gk val st ag).1 = .ok o) :
+    (isPaste P (nonblockingRead P st).1 = true ↔ ∃ ks, o = some (.paste ks)) ∧
+    (isPaste P (nonblockingRead P st).1 = true →
+      ∃ ks, o = some (.paste ks) ∧ ks.flatMap (·.2) = pend st ∧ pend (sendRead P gk val st ag).2.1 = []) ∧
+    (sendRead P gk val st ag).1 ≠ .error .outOfFuel := by
+  unfold sendRead at h ⊢
+  simp only [] at h ⊢
+  have hp : pend (nonblockingRead P st).2 = pend st := by simp [nonblockingRead, pend]
+  generalize (nonblockingRead P st) = nr at hn hp h ⊢
+  obtain ⟨n, st1⟩ := nr
+  simp only [] at hn hp h ⊢
+  have hn' : (n == 0) = false := by simpa using hn
+  simp only [hn', Bool.false_eq_true, if_false] at h ⊢
+  by_cases hip : isPaste P n = true
+  · simp only [hip, if_true] at h ⊢
+    have hl := pasteLoop_ledger P gk val (pasteFuel st1) [] st1
+    have hd := pasteLoop_drains P gk val hm hr (pasteFuel st1) [] st1
+    have hf := C08_paste_fuel P gk val st1
+    generalize pasteLoop P gk val (pasteFuel st1) [] st1 = pr at hl hd hf h ⊢
+    obtain ⟨res, st2⟩ := pr
+    simp only [] at hl hd hf h ⊢
+    obtain ⟨_, lost, hl1, hl2⟩ := hl
+    obtain ⟨hlost, ks, hks⟩ := hl2 o h
+    subst hlost hks
+    obtain ⟨hu, ho⟩ := hd _ h
+    rw [h] at hl1
+    have hb : ks.flatMap (·.2) = pend st := by
+      simp [resOut, outB, pend, hu, ho] at hl1; rw [← hp]; simpa [pend] using hl1
+    exact ⟨⟨fun _ => ⟨ks, rfl⟩, fun _ => trivial⟩, fun _ => ⟨ks, rfl, hb, by simp [pend, hu, ho]⟩, hf⟩
+  · have hip' : isPaste P n = false := by simpa using hip
+    simp only [hip', Bool.false_eq_true, if_false] at h ⊢
+    generalize findKey gk val st1.unprocessed [] = r at h ⊢
+    obtain ⟨res, used, rest⟩ := r
+    cases res with
+    | error e => simp at h
+    | ok ko =>
+      cases ko with
+      | none => simp at h
+      | some k =>
+        simp only [Except.ok.injEq] at h
+        subst h
+        exact ⟨⟨fun hh => by simp at hh, fun ⟨ks, hks⟩ => by simp at hks⟩, fun hh => by simp at hh, by simp⟩
+
+theorem afterWait_notready (P : Params) (gk : List Nat → Bool → Except PyErr (Option κ)) (val : β → Nat)
+    (st : InSt β) (ag : Agenda β) (h : (afterWait P gk val false st ag).1 = .ok none) :
+    firstReady P (afterWait P gk val false st ag).2.1 = firstReady P st := by
+  unfold afterWait at h ⊢
+  generalize sortSched st.scheduled = so at h ⊢
+  cases so with
+  | nil => rfl
+  | cons hd srest =>
+    obtain ⟨w0, e0⟩ := hd
+    simp only [] at h ⊢
+    by_cases hdue : w0 < st.clock
+    · simp [hdue] at h
+    · simp only [hdue, if_false]
+      exact firstReady_congr P _ _ rfl rfl rfl rfl
+
+theorem sendRest_none_idle (P : Params) (gk : List Nat → Bool → Except PyErr (Option κ)) (val : β → Nat) (wf : Nat)
+    (tuc : Option Time) (st : InSt β) (ag : Agenda β) (hz : st.spurious = false)
+    (hq : ∀ x ∈ ag, isSpur x.2 = false) (hr : P.readSize > 0)
+    (h : (sendRest P gk val wf tuc st ag).1 = .ok none) :
+    firstReady P (sendRest P gk val wf tuc st ag).2.1 = none := by
+  rcases sendRest_cases P gk val wf tuc st ag _ h with ⟨k, bs, hk⟩ | ⟨hu, ⟨ev, hev, _⟩ | ⟨ready, st1, ag1, fired, hf, hg1, hsp, hto, hrd, hidle, heq⟩⟩
+  · simp at hk
+  · simp at hev
+  · rw [heq] at h ⊢
+    obtain ⟨_, _, ho⟩ := afterWait_facts P gk val ready st1 ag1
+    cases ready with
+    | true =>
+      rcases ho _ h with ⟨t', e', h1, _⟩ | ⟨_, h1⟩ | ⟨k, bs, h1⟩ | ⟨ks, h1⟩
+      · simp at h1
+      · rcases h1 with h1 | h1
+        · simp at h1
+        · have hos : st1.osbuf = [] := take_length_zero _ _ hr (by simpa [nonblockingRead] using h1)
+          rcases hrd rfl with h2 | h2
+          · exact absurd hos h2
+          · rw [hsp hz hq] at h2; simp at h2
+      · simp at h1
+      · simp at h1
+    | false =>
+      rw [afterWait_notready P gk val st1 ag1 h]
+      exact hidle rfl
+
+/-- A request never returns `None` while anything is readable: when `send` returns `None` (no spurious readiness
+    involved), afterwards no trigger pipe holds an unread byte, the wake-up fd holds none and the stream holds none.
+    In particular a thread-safe callback whose write has landed is never passed over by a timeout: its pipe byte makes
+    `select` return, the pipe branch of the wait pops the event (`C08_wait_exactly_once`) and the request returns it. -/
+theorem C08_none_nothing_readable (P : Params) (gk : List Nat → Bool → Except PyErr (Option κ)) (val : β → Nat)
+    (wf : Nat) (st : InSt β) (ag : Agenda β) (timeout : Option Time) (hz : st.spurious = false)
+    (hq : ∀ x ∈ ag, isSpur x.2 = false) (hr : P.readSize > 0)
+    (h : (send P gk val wf st ag timeout).1 = .ok none) :
+    firstReady P (send P gk val wf st ag timeout).2.1 = none ∧
+    (∀ n ∈ (send P gk val wf st ag timeout).2.1.pipes, n = 0) := by
+  have key : firstReady P (send P gk val wf st ag timeout).2.1 = none := by
+    by_cases hbusy : st.sigints > 0 ∨ st.queued ≠ [] ∨ st.interrupting ≠ []
+    · obtain ⟨ev, h1, _⟩ := send_busy P gk val wf st ag timeout hbusy
+      rw [h1] at h; simp at h
+    · have hg : ¬ st.sigints > 0 := fun x => hbusy (Or.inl x)
+      have hq0 : st.queued = [] := Classical.byContradiction fun x => hbusy (Or.inr (Or.inl x))
+      have hi : st.interrupting = [] := Classical.byContradiction fun x => hbusy (Or.inr (Or.inr x))
+      rw [send_idle P gk val wf st ag timeout hg hq0 hi] at h ⊢
+      generalize sortSched st.scheduled = so at h ⊢
+      cases so with
+      | nil => exact sendRest_none_idle P gk val wf timeout st ag hz hq hr h
+      | cons hd srest =>
+        obtain ⟨w, e⟩ := hd
+        simp only [] at h ⊢
+        by_cases hdue : w < st.clock
+        · simp [hdue] at h
+        · simp only [hdue, if_false] at h ⊢
+          exact sendRest_none_idle P gk val wf _ { st with scheduled := (w, e) :: srest } ag hz hq hr h
+  refine ⟨key, ?_⟩
+  generalize (send P gk val wf st ag timeout).2.1 = st' at key
+  unfold firstReady at key
+  split at key
+  · simp at key
+  · have hp : firstPipe st'.pipes 0 = none := by
+      split at key
+      · simp at key
+      · cases hfp : firstPipe st'.pipes 0 <;> simp [hfp] at key ⊢
+    have gen : ∀ (l : List Nat) (k : Nat), firstPipe l k = none → ∀ n ∈ l, n = 0 := by
+      intro l
+      induction l with
+      | nil => intro _ _ n hn; simp at hn
+      | cons x xs ih =>
+        intro k hk n hn
+        unfold firstPipe at hk
+        split at hk
+        · simp at hk
+        · rename_i hx
+          rcases List.mem_cons.mp hn with hn | hn
+          · subst hn; omega
+          · exact ih (k + 1) hk n hn
+    exact gen _ _ hp
+
+/-! ## the fuel of the wait loop suffices -/
+def mu (st : InSt β) (ag : Agenda β) : Nat := st.wake.length + st.pipes.sum + (PIPE_WRITE + 1) * ag.length
+
+theorem addAt_sum_le (l : List Nat) (p n : Nat) : (addAt l p n).sum ≤ l.sum + n := by
+  induction l generalizing p with
+  | nil => simp [addAt]
+  | cons x xs ih =>
+    cases p with
+    | zero => simp [addAt]; omega
+    | succ p => have := ih p; simp [addAt]; omega
+
+theorem applyEnv_mu (P : Params) (a : EnvAct β) (st : InSt β) :
+    (applyEnv P a st).wake.length + (applyEnv P a st).pipes.sum ≤ st.wake.length + st.pipes.sum + PIPE_WRITE := by
+  cases a <;> simp [applyEnv, PIPE_WRITE]
+  case tsWrite p => have := addAt_sum_le st.pipes p 19; omega
+  case sigint => split <;> simp <;> omega
+  case signal n => split <;> simp <;> omega
+
+theorem select_mu (P : Params) (dl : Option Time) (st : InSt β) (ag : Agenda β) :
+    mu (select P dl st ag).2.1 (select P dl st ag).2.2 ≤ mu st ag := by
+  fun_induction select P dl st ag with
+  | case1 st ag r h => exact Nat.le_refl _
+  | case2 st h hd => exact Nat.le_refl _
+  | case3 st h d hd => exact Nat.le_refl _
+  | case4 st h t a rest hd ih =>
+    subst hd
+    refine Nat.le_trans ih ?_
+    have := applyEnv_mu P a { st with clock := max st.clock t }
+    simp only [mu, List.length_cons] at this ⊢
+    simp only [PIPE_WRITE] at this ⊢
+    omega
+  | case5 st h t a rest d hd hle ih =>
+    subst hd
+    refine Nat.le_trans ih ?_
+    have := applyEnv_mu P a { st with clock := max st.clock t }
+    simp only [mu, List.length_cons] at this ⊢
+    simp only [PIPE_WRITE] at this ⊢
+    omega
+  | case6 st h t a rest d hd hle => exact Nat.le_refl _
+
+theorem firstPipe_sub (l : List Nat) (k i n : Nat) (hn : n > 0) (h : firstPipe l k = some i) :
+    k ≤ i ∧ (subAt l (i - k) n).sum < l.sum := by
+  induction l generalizing k with
+  | nil => simp [firstPipe] at h
+  | cons x xs ih =>
+    unfold firstPipe at h
+    split at h
+    · rename_i hx
+      simp only [Option.some.injEq] at h
+      subst h
+      simp [subAt]; omega
+    · obtain ⟨h1, h2⟩ := ih (k + 1) h
+      have e : i - k = (i - (k + 1)) + 1 := by omega
+      refine ⟨by omega, ?_⟩
+      rw [e]; simp [subAt]; omega
+
+theorem firstReady_wp (P : Params) (st : InSt β) (r : Sel) :
+    firstReady P st = some r →
+    match r with
+    | .wake n rest => st.wake = n :: rest
+    | .pipe i => firstPipe st.pipes 0 = some i
+    | _ => True := by
+  intro h
+  unfold firstReady at h
+  split at h
+  · cases h; trivial
+  · split at h
+    · rename_i hw; cases h; exact hw ▸ rfl
+    · cases hp : firstPipe st.pipes 0 <;> simp [hp] at h
+      cases h; rfl
+
+theorem select_wp (P : Params) (dl : Option Time) (st : InSt β) (ag : Agenda β) :
+    match (select P dl st ag).1 with
+    | .wake n rest => (select P dl st ag).2.1.wake = n :: rest
+    | .pipe i => firstPipe (select P dl st ag).2.1.pipes 0 = some i
+    | _ => True := by
+  fun_induction select P dl st ag with
+  | case1 st ag r h => have := firstReady_wp P st r h; cases r <;> simpa using this
+  | case2 st h hd => trivial
+  | case3 st h d hd => trivial
+  | case4 st h t a rest hd ih => subst hd; exact ih
+  | case5 st h t a rest d hd hle ih => subst hd; exact ih
+  | case6 st h t a rest d hd hle => trivial
+
+/-- THE WAIT-LOOP FUEL SUFFICES: every round of `while True` in `_wait_for_read_ready_or_timeout` consumes a wake-up
+    byte or at least one pipe byte, and `select` turns an agenda item into at most PIPE_WRITE such bytes. -/
+theorem waitLoop_fuel (P : Params) (timeout : Option Time) (t0 : Time) (f : Nat) (remaining : Option Time)
+    (st : InSt β) (ag : Agenda β) :
+    mu st ag < f → (waitLoop (κ := κ) P timeout t0 f remaining st ag).1 ≠ .error .outOfFuel := by
+  fun_induction waitLoop (κ := κ) P timeout t0 f remaining st ag with
+  | case1 x st ag => intro h; omega
+  | case2 f remaining st ag st1 ag1 hs => intro _; simp
+  | case3 f remaining st ag st1 ag1 hs => intro _; simp
+  | case4 f remaining st ag st1 ag1 hs => intro _; simp
+  | case5 f remaining st ag n rest st1 ag1 hs st2 hn hg => intro _; simp
+  | case6 f remaining st ag n rest st1 ag1 hs st2 hn hg ih =>
+    intro h
+    have hm := select_mu P (Option.map (fun x => st.clock + x) remaining) st ag
+    have hw := select_wp P (Option.map (fun x => st.clock + x) remaining) st ag
+    rw [hs] at hm hw
+    simp only [] at hm hw
+    apply ih
+    have : mu st2 ag1 < mu st1 ag1 := by
+      show _ + _ + _ < _ + _ + _
+      have e1 : st2.wake = rest := rfl
+      have e2 : st2.pipes = st1.pipes := rfl
+      rw [e1, e2, hw]; simp
+    omega
+  | case7 f remaining st ag n rest st1 ag1 hs st2 hn ih =>
+    intro h
+    have hm := select_mu P (Option.map (fun x => st.clock + x) remaining) st ag
+    have hw := select_wp P (Option.map (fun x => st.clock + x) remaining) st ag
+    rw [hs] at hm hw
+    simp only [] at hm hw
+    apply ih
+    have : mu st2 ag1 < mu st1 ag1 := by
+      show _ + _ + _ < _ + _ + _
+      have e1 : st2.wake = rest := rfl
+      have e2 : st2.pipes = st1.pipes := rfl
+      rw [e1, e2, hw]; simp
+    omega
+  | case8 f remaining st ag i st1 ag1 hs st2 e q he => intro _; simp
+  | case9 f remaining st ag i st1 ag1 hs st2 he ih =>
+    intro h
+    have hm := select_mu P (Option.map (fun x => st.clock + x) remaining) st ag
+    have hw := select_wp P (Option.map (fun x => st.clock + x) remaining) st ag
+    rw [hs] at hm hw
+    simp only [] at hm hw
+    apply ih
+    have hsub := (firstPipe_sub st1.pipes 0 i PIPE_READ (by simp [PIPE_READ]) hw).2
+    have : mu st2 ag1 < mu st1 ag1 := by
+      show _ + _ + _ < _ + _ + _
+      have e1 : st2.wake = st1.wake := rfl
+      have e2 : st2.pipes = subAt st1.pipes i PIPE_READ := rfl
+      rw [e1, e2]; simp only [Nat.sub_zero] at hsub; omega
+    omega
+
+theorem C08_wait_fuel (P : Params) (timeout : Option Time) (t0 : Time) (remaining : Option Time)
+    (st : InSt β) (ag : Agenda β) :
+    (waitLoop (κ := κ) P timeout t0 (waitFuelFor st ag) remaining st ag).1 ≠ .error .outOfFuel := by
+  apply waitLoop_fuel
+  unfold mu waitFuelFor
+  simp only [PIPE_WRITE]
+  omega
+
+theorem sendRead_not_fuel (P : Params) (gk : List Nat → Bool → Except PyErr (Option κ)) (val : β → Nat)
+    (st : InSt β) (ag : Agenda β) : (sendRead P gk val st ag).1 ≠ .error .outOfFuel := by
+  unfold sendRead
+  simp only []
+  split
+  · simp
+  · split
+    · exact C08_paste_fuel P gk val _
+    · split <;> simp
+
+theorem afterWait_not_fuel (P : Params) (gk : List Nat → Bool → Except PyErr (Option κ)) (val : β → Nat)
+    (ready : Bool) (st : InSt β) (ag : Agenda β) : (afterWait P gk val ready st ag).1 ≠ .error .outOfFuel := by
+  unfold afterWait
+  split
+  · simp only []
+    split
+    · simp
+    · split
+      · simp
+      · exact sendRead_not_fuel P gk val _ _
+  · split
+    · simp
+    · exact sendRead_not_fuel P gk val _ _
+
+theorem sendRest_not_fuel (P : Params) (gk : List Nat → Bool → Except PyErr (Option κ)) (val : β → Nat) (wf : Nat)
+    (tuc : Option Time) (st : InSt β) (ag : Agenda β) (hf : mu st ag < wf) :
+    (sendRest P gk val wf tuc st ag).1 ≠ .error .outOfFuel := by
+  unfold sendRest
+  generalize findKey gk val st.unprocessed [] = r
+  obtain ⟨res, used, rest⟩ := r
+  cases res with
+  | error e => simp
+  | ok ko =>
+    cases ko with
+    | some k => simp
+    | none =>
+      simp only []
+      have hw := waitLoop_fuel (κ := κ) P tuc st.clock wf tuc { st with unprocessed := rest } ag hf
+      generalize waitLoop (κ := κ) P tuc st.clock wf tuc { st with unprocessed := rest } ag = wr at hw
+      obtain ⟨wres, st1, ag1⟩ := wr
+      cases wres with
+      | error fl => simpa using hw
+      | ok pr =>
+        obtain ⟨ready, ev⟩ := pr
+        cases ev with
+        | some ev => simp
+        | none => exact afterWait_not_fuel P gk val ready st1 ag1
+
+/-- `Fail.outOfFuel` is unreachable: with the fuel `run` gives it (`waitFuelFor st ag`), a request never answers
+    `outOfFuel` - neither from the wait loop nor from the paste loop.  (So the fuel arguments are proof devices only.) -/
+theorem C08_no_out_of_fuel (P : Params) (gk : List Nat → Bool → Except PyErr (Option κ)) (val : β → Nat)
+    (st : InSt β) (ag : Agenda β) (timeout : Option Time) :
+    (send P gk val (waitFuelFor st ag) st ag timeout).1 ≠ .error .outOfFuel := by
+  have hf : mu st ag < waitFuelFor st ag := by unfold mu waitFuelFor; simp only [PIPE_WRITE]; omega
+  by_cases hbusy : st.sigints > 0 ∨ st.queued ≠ [] ∨ st.interrupting ≠ []
+  · obtain ⟨ev, h1, _⟩ := send_busy P gk val (waitFuelFor st ag) st ag timeout hbusy
+    rw [h1]; simp
+  · have hg : ¬ st.sigints > 0 := fun x => hbusy (Or.inl x)
+    have hq0 : st.queued = [] := Classical.byContradiction fun x => hbusy (Or.inr (Or.inl x))
+    have hi : st.interrupting = [] := Classical.byContradiction fun x => hbusy (Or.inr (Or.inr x))
+    rw [send_idle P gk val _ st ag timeout hg hq0 hi]
+    generalize sortSched st.scheduled = so
+    cases so with
+    | nil => exact sendRest_not_fuel P gk val _ timeout st ag hf
+    | cons hd srest =>
+      obtain ⟨w, e⟩ := hd
+      simp only []
+      split
+      · simp
+      · exact sendRest_not_fuel P gk val _ _ { st with scheduled := (w, e) :: srest } ag hf
 
 end Curtsies
